@@ -157,6 +157,13 @@ extern "C" void h_common_nodes(void) {
       g[i].cc = &lx->get_calling_convention(w.view()); g[i].ty = &lx->get_as_type(lx->get_identifier(w.view()));
       ++i;
    }
+   {  // compound types over a process-wide built-in operand, requested alternately on the two Lexicons: each Lexicon has its own node, and keeps it
+      const void* mine[2][5]; impl::Lexicon* lxs[2] = { first, second };
+      for (int round = 0; round < 2; ++round) for (int k = 0; k < 2; ++k) { impl::Lexicon& lx = *lxs[k];
+         const void* now[5] = { &lx.get_reference(lx.int_type()), &lx.get_rvalue_reference(lx.int_type()), &lx.get_pointer(lx.int_type()), &lx.get_qualified(lx.const_qualifier(), lx.int_type()), &lx.get_array(lx.int_type(), lx.true_value()) };
+         for (int j = 0; j < 5; ++j) { if (round == 0) mine[k][j] = now[j]; else vp_assert(mine[k][j] == now[j], 26); } }
+      for (int j = 0; j < 5; ++j) vp_assert(mine[0][j] != mine[1][j], 27);
+   }
    vp_assert((g[0].str == g[1].str) == (reserved || empty), 20);
    vp_assert((g[0].id == g[1].id) == reserved, 21);
    vp_assert(g[0].op != g[1].op && g[0].lit != g[1].lit && g[0].cc != g[1].cc, 22);           // never process-wide
